@@ -6,7 +6,8 @@ use metrique_writer::sink::{BackgroundQueue, BackgroundQueueBuilder, global_entr
 use metrique_writer::{AnyEntrySink, AttachGlobalEntrySink, BoxEntrySink, EntrySink, GlobalEntrySink};
 use std::collections::HashMap;
 use std::sync::atomic::{AtomicBool, AtomicU64, Ordering};
-use std::sync::{Arc, Barrier};
+use std::sync::Arc;
+use vcommon::sync::SpinGate as Barrier;
 use std::time::{Duration, Instant};
 use vcommon::serde_json::{Value, json};
 use vcommon::stream::{Ev, IdEntry, StreamShared, id_producer, id_seq, make_id};
